@@ -43,6 +43,12 @@ class Listener:
         self.label = label
         self.ctx = ctx
 
+    def __hash__(self):
+        # deterministic (labels are strings, PYTHONHASHSEED is fixed): the
+        # iteration order of desper's listener sets must not depend on
+        # object addresses, or replays of one history could differ
+        return hash(self.label)
+
     def _got(self, event, payload):
         ctx = self.ctx
         pos = len(ctx.log)
